@@ -374,6 +374,17 @@ fn check_invariants<const K: usize>(
     if tree.len() != stored.len() || (expected_reachable.is_none() && tree.len() != reach_set.len()) {
         return Err(("len_mismatch".into(), format!("len()={} stored={} reachable={}", tree.len(), stored.len(), reach_set.len())));
     }
+    // the library's own reachable-node counts must agree with what the traversal yields
+    let counts = guarded(|| (tree.num_nodes(tree.get_root_idx()), tree.dfs_iter().count()));
+    match counts {
+        Ok((a, b)) if a == reach_set.len() && b == reach_set.len() => {}
+        other => {
+            return Err((
+                "reachable_count_mismatch".into(),
+                format!("num_nodes(root) / dfs_iter().count() = {other:?}, nodes actually reached {}", reach_set.len()),
+            ));
+        }
+    }
     // parent(idx) must resolve for every non-root node (it panics on corrupted links)
     for idx in view.keys() {
         let r = guarded(|| tree.parent(*idx).map(|e| (e.source_idx, e.label)).ok());
